@@ -254,6 +254,14 @@ pub fn cmd_walk(args: &[&str]) -> String {
     }
 }
 
+// `walkcd <cwd> <walk arguments>`: change the working directory first (walks from relative base directories).
+pub fn cmd_walkcd(args: &[&str]) -> String {
+    if std::env::set_current_dir(unhex(args[0])).is_err() {
+        return "bad-cwd".into();
+    }
+    cmd_walk(&args[1..])
+}
+
 pub fn cmd_tree(_args: &[&str]) -> String {
     "unimplemented".into()
 }
